@@ -64,6 +64,7 @@ type Contract struct {
 	Mode        string              // "bv" or "int"
 	Tags        []string            // property ids
 	CallAsserts map[string][]Clause // callee name suffix -> assertions at each call site (arg0.. bound)
+	CallKeeps   map[string][]KeepSpec
 	Funs        map[string]string   // uninterpreted ghost functions: name -> "(Int) Int"
 	Axioms      []Clause            // assumed over the pre-state (ghost definitions; lemmas are proved separately)
 	Lemmas      []Lemma
@@ -76,10 +77,12 @@ type Contract struct {
 	NoOverflow  bool
 	Terminates  bool
 	Trusted     bool             // contract assumed, body not checked (listed in evidence)
+	Functional  bool             // calls are modelled as an uninterpreted function of the argument values
 	Loops       map[int]LoopSpec // loop ordinal (by header block index order) -> spec
 	Callbacks   map[string]string // parameter name -> ghost set name
 	GhostCalls  map[string]string // callee -> ghost set name
 	GhostArg    map[string]string // callee -> name of the recorded parameter (default: first non-receiver)
+	Orders      []OrderSpec
 	PureFns     []string          // function-typed parameters assumed pure (uninterpreted functions)
 	Reveal      []string
 	Traverses   []Traverse
@@ -98,7 +101,14 @@ type Lemma struct {
 	Lo    string // induction base
 }
 
+// KeepSpec: the value Out is a field-by-field rebuild of In; everything that
+// does not hold the Handle type must be carried over unchanged.
+type KeepSpec struct {
+	In, Out, Handle, Unless string
+}
+
 type LoopSpec struct {
+	Keeps      []KeepSpec
 	Invariants []Clause
 	Steps      []Clause // transition invariants: relate prev(x) (header value) to x (next-iteration value)
 	Decreases  string
@@ -130,6 +140,7 @@ type Engine struct {
 	paramSyms   []paramSym
 	rootPre     *State
 	heapAlias   map[string]string
+	fnIndex     map[string]*ssa.Function
 	readLog     map[string]bool   // when non-nil, heapByName records the heaps it is asked for
 	opaqueSig   map[string]string // opaque predicate -> declared uninterpreted symbol
 	sumInst     map[string]bool   // ghostsum instances whose defining axioms were emitted
@@ -903,4 +914,15 @@ func intConst(t string) (int64, bool) {
 		return v, true
 	}
 	return 0, false
+}
+
+// fnByKey yields the function whose fn.String() is key (contracts are keyed by it).
+func (e *Engine) fnByKey(key string) map[*ssa.Function]bool {
+	out := map[*ssa.Function]bool{}
+	if e.fnIndex != nil {
+		if f, ok := e.fnIndex[key]; ok {
+			out[f] = true
+		}
+	}
+	return out
 }
